@@ -281,6 +281,15 @@ func c03ValidFile(r *Rand, format string) c03File {
 		return cands[r.Intn(len(cands))]
 	}
 	spec := simpleAln(r, 8, 130)
+	if r.Chance(0.01) {
+		// many rows (the parsers grow their tables beyond their first capacity), several blocks
+		for tall := simpleAln(r, 140, 130); ; tall = simpleAln(r, 140, 130) {
+			if len(tall.Names) >= 95 {
+				spec = tall
+				break
+			}
+		}
+	}
 	al, err := spec.Build()
 	if err != nil {
 		panic(err)
